@@ -12,6 +12,7 @@ import (
 	"os/exec"
 	"sort"
 	"strings"
+	"sync"
 	"time"
 )
 
@@ -116,6 +117,16 @@ type Case struct {
 	Impl   string   // what the real code returned (val)
 	Oracle string   // "ok" or "FAIL:<key>:<text>"  (the property's own judge, independent of the model)
 	Tags   []string // for the input-distribution report; "nt" marks a non-trivial case
+	// Re recomputes Impl from the same inputs (fresh objects, no random draws).  Cases that carry it
+	// are evaluated again at the end of the run, several at a time from different goroutines: the
+	// functions under test are pure, so what they return must not depend on what else is running or
+	// has run before (package-level scratch state, pools, caches, objects shared through a getter)
+	Re func() string
+}
+
+type replayItem struct {
+	c  Case
+	id int
 }
 
 type Writer struct {
@@ -123,6 +134,9 @@ type Writer struct {
 	w    *bufio.Writer
 	n    int
 	Dist map[string]int
+
+	replay []replayItem
+	seenRe int
 }
 
 func NewWriter(path string) (*Writer, error) {
@@ -143,11 +157,82 @@ func (w *Writer) Put(c Case) {
 	}
 	fmt.Fprintf(w.w, "%d\t%s\t%d\t%s\t%s\t%s\t%s\n", w.n, c.Entry, c.Op, c.Args, c.Impl,
 		strings.ReplaceAll(c.Oracle, "\t", " "), strings.Join(c.Tags, ","))
+	if c.Re != nil && c.Impl != P {
+		// a spread sample: the first 48, then every 37th, at most 160
+		w.seenRe++
+		if len(w.replay) < 160 && (w.seenRe <= 48 || w.seenRe%37 == 0) {
+			w.replay = append(w.replay, replayItem{c, w.n})
+		}
+	}
+}
+
+// ReplayConcurrently evaluates the sampled cases again: first all of them once more in sequence
+// (what ran in between must not matter), then in waves of 8 goroutines.
+func (w *Writer) ReplayConcurrently() {
+	items := w.replay
+	w.replay = nil
+	if len(items) == 0 {
+		return
+	}
+	quiet := func(f func() string) (out string) {
+		defer func() {
+			if r := recover(); r != nil {
+				out = P
+			}
+		}()
+		return f()
+	}
+	report := func(it replayItem, how, got string) {
+		args := it.c.Args
+		if len(args) > 300 {
+			args = args[:300] + "..."
+		}
+		w.Put(Case{Entry: "-", Op: 0, Args: L(Zi(it.id)), Impl: got,
+			Oracle: Fail("evaluation-depends-on-other-evaluations", fmt.Sprintf("case %d (%s op %d) gives another result when it is evaluated again %s: first %.80s, then %.80s; arguments %s", it.id, it.c.Entry, it.c.Op, how, it.c.Impl, got, args)),
+			Tags:   []string{"replay", "nt"}})
+	}
+	bad := map[int]bool{}
+	for _, it := range items {
+		if got := quiet(it.c.Re); got != it.c.Impl {
+			bad[it.id] = true
+			report(it, "after the other cases have run", got)
+		}
+	}
+	const wave = 12
+	for round := 0; round < 3; round++ {
+		for i := 0; i < len(items); i += wave {
+			j := i + wave
+			if j > len(items) {
+				j = len(items)
+			}
+			res := make([]string, j-i)
+			var wg sync.WaitGroup
+			start := make(chan struct{})
+			for k := i; k < j; k++ {
+				wg.Add(1)
+				go func(k int) {
+					defer wg.Done()
+					<-start
+					res[k-i] = quiet(items[k].c.Re)
+				}(k)
+			}
+			close(start)
+			wg.Wait()
+			for k := i; k < j; k++ {
+				if res[k-i] != items[k].c.Impl && !bad[items[k].id] {
+					bad[items[k].id] = true
+					report(items[k], "while other cases are evaluated in other goroutines", res[k-i])
+				}
+			}
+		}
+	}
+	w.Put(Case{Entry: "-", Op: 0, Args: L(Zi(len(items))), Impl: Zi(len(bad)), Tags: []string{"replay-summary"}})
 }
 
 func (w *Writer) Count() int { return w.n }
 
 func (w *Writer) Close() error {
+	w.ReplayConcurrently()
 	keys := make([]string, 0, len(w.Dist))
 	for k := range w.Dist {
 		keys = append(keys, k)
